@@ -199,4 +199,91 @@ Proof.
       * apply (Hfin 4); auto.
 Qed.
 
+Lemma body_head flags rc a : body_x flags rc a -> flags = 1%Z -> hd NUL (a ++ [NUL]) <> AT.
+Proof.
+  intros [(_ & [[X _]|[_ H]])|[(_ & Hm)|(_ & Hm)]] Hf.
+  - congruence.
+  - now apply lower_pm_head.
+  - destruct Hm as (lp & dom & -> & Hne & Hat & _). destruct lp as [|c lp]; [congruence|]. cbn [app hd].
+    intros ->. apply Hat. now left.
+  - destruct Hm as (lp & dom & -> & Hne & Hat & _). destruct lp as [|c lp]; [congruence|]. cbn [app hd].
+    intros ->. apply Hat. now left.
+Qed.
+
+Theorem addrsyntax_complete s rest flags rc addr more : ~ In NUL s -> rc <> 0%Z ->
+  addrsyntax_post_x pton4 pton6 s flags rc addr more ->
+  exists r, addrsyntax pton4 pton6 (s ++ NUL :: rest) flags = Ok r
+    /\ as_rc r = rc /\ as_addr r = addr /\ as_more r = more.
+Proof.
+  intros Hs Hrc [H0|(rt & a & post & E & Ha & Hrt & -> & -> & Hc)]; [contradiction|].
+  fold (body_x flags rc a) in Hc. unfold addrsyntax.
+  assert (R0 : rd (s ++ NUL :: rest) 0 = Ok (hd NUL (s ++ [NUL]))) by (destruct s; reflexivity).
+  rewrite R0. cbn [bind].
+  destruct Hrt as [->|(Hf1 & Hroute & Hlen & Hnc)].
+  - (* no source route *)
+    cbn [app] in E. subst s.
+    assert (Ert : Z.eqb flags 1 && N.eqb (hd NUL ((a ++ cGT :: post) ++ [NUL])) AT = false).
+    { destruct (Z.eqb_spec flags 1) as [Hf|]; [|reflexivity]. cbn [andb]. apply N.eqb_neq.
+      pose proof (body_head flags rc a Hc Hf) as X. destruct a; [cbn; discriminate|exact X]. }
+    rewrite Ert. cbn [bind].
+    destruct (as_tail_complete rest flags rc [] a post Hs Ha Hc) as (mem' & H). cbn zeta in H.
+    eexists. split; [exact H|]. cbn. auto.
+  - (* with a source route *)
+    subst flags. destruct (route_x_split rt Hroute) as (ys & d & -> & Hys & Hd).
+    destruct (fqdn_strict_chars d Hd) as (Hdn & Hdc & Hdl).
+    set (yl := AT :: d ++ COLON :: (a ++ cGT :: post)).
+    assert (Es : s = ys ++ yl) by (rewrite E; unfold yl; cbn [app]; rewrite <- !app_assoc; cbn [app]; rewrite <- !app_assoc; reflexivity).
+    assert (Hnyl : ~ In NUL yl) by (rewrite Es in Hs; apply not_in_app in Hs; tauto).
+    assert (Hny : ~ In NUL (a ++ cGT :: post)).
+    { unfold yl in Hnyl. apply not_in_cons in Hnyl as [_ X]. apply not_in_app in X as [_ X]. apply not_in_cons in X. tauto. }
+    assert (Hcyl : ~ In COMMA yl).
+    { unfold yl. apply not_in_cons. split; [discriminate|]. apply not_in_app. split; [exact Hdc|].
+      apply not_in_cons. split; [discriminate|exact Hnc]. }
+    assert (Hhd : hd NUL (s ++ [NUL]) = AT).
+    { rewrite Es. destruct Hys; reflexivity. }
+    rewrite Hhd. cbn [Z.eqb Pos.eqb andb]. rewrite N.eqb_refl. cbn [andb].
+    destruct (route_loop_complete rest ys Hys (length (s ++ NUL :: rest)) [] yl Hcyl eq_refl Hnyl) as (m2 & Hm2 & Hrun).
+    { rewrite Es, !app_length. cbn [length]. lia. }
+    cbn [app length] in Hrun. rewrite <- Es in Hrun. rewrite Hrun. cbn [bind Nat.add].
+    rewrite <- Hm2. rewrite skipn_app_exact.
+    unfold yl. change (AT :: d ++ COLON :: a ++ cGT :: post) with ((AT :: d) ++ COLON :: (a ++ cGT :: post)).
+    rewrite <- app_assoc. cbn [app].
+    change (AT :: d ++ COLON :: (a ++ cGT :: post) ++ NUL :: rest) with ((AT :: d) ++ COLON :: ((a ++ cGT :: post) ++ NUL :: rest)).
+    rewrite strchr_first; [|intros [X|X]; [discriminate|contradiction]|intros [X|X]; [discriminate|contradiction]].
+    cbn [bind].
+    assert (E1 : m2 ++ (AT :: d) ++ COLON :: (a ++ cGT :: post) ++ NUL :: rest
+                 = (m2 ++ AT :: d) ++ COLON :: ((a ++ cGT :: post) ++ NUL :: rest)).
+    { rewrite <- !app_assoc. reflexivity. }
+    rewrite E1. replace (length m2 + length (AT :: d)) with (length (m2 ++ AT :: d)) by (rewrite app_length; reflexivity).
+    rewrite upd_app. cbn [bind].
+    assert (S1 : skipn (length m2 + 1) ((m2 ++ AT :: d) ++ NUL :: (a ++ cGT :: post) ++ NUL :: rest)
+                 = d ++ NUL :: ((a ++ cGT :: post) ++ NUL :: rest)).
+    { rewrite <- app_assoc. rewrite skipn_app_plus. reflexivity. }
+    rewrite S1. rewrite (proj2 (domainvalid_iff d _ Hdn) Hd). cbn [bind Nat.eqb negb].
+    set (m1 := (m2 ++ AT :: d) ++ [NUL]).
+    assert (L2 : length (m2 ++ AT :: d) + 1 = length m1) by (unfold m1; rewrite (app_length _ [NUL]); reflexivity).
+    assert (L3 : length m1 = length (ys ++ cAT :: d ++ [cCOLON])).
+    { unfold m1. repeat (rewrite ?app_length; cbn [length app]). lia. }
+    as_consts. rewrite L2.
+    destruct (Nat.ltb_spec 256 (length m1)) as [X|_]; [lia|]. cbn [bind].
+    assert (E2 : (m2 ++ AT :: d) ++ NUL :: (a ++ cGT :: post) ++ NUL :: rest = m1 ++ (a ++ GT :: post) ++ NUL :: rest).
+    { unfold m1. rewrite <- !app_assoc. reflexivity. }
+    rewrite E2.
+    destruct (as_tail_complete rest 1%Z rc m1 a post Hny Ha Hc) as (mem' & H). cbn zeta in H.
+    eexists. split; [exact H|]. cbn [as_rc as_addr as_more]. rewrite L3. auto.
+Qed.
+
+(** addrsyntax() returns the non-zero code rc with address [addr] and [more] exactly for the lines of the
+    exact grammar: an equivalence between acceptance and RFC 5321 Path (as restricted in AddrGrammar.v) *)
+Theorem addrsyntax_iff s rest flags rc addr more : ~ In NUL s -> rc <> 0%Z ->
+  ((exists r, addrsyntax pton4 pton6 (s ++ NUL :: rest) flags = Ok r
+      /\ as_rc r = rc /\ as_addr r = addr /\ as_more r = more)
+   <-> addrsyntax_post_x pton4 pton6 s flags rc addr more).
+Proof.
+  intros Hs Hrc. split; [|now apply addrsyntax_complete].
+  intros (r & Hr & <- & <- & <-).
+  destruct (addrsyntax_spec_x pton4 pton6 s rest flags Hs) as (r' & Hr' & Hp & _).
+  rewrite Hr in Hr'. inversion Hr'; subst r'. exact Hp.
+Qed.
+
 End Oracle.
